@@ -25,6 +25,7 @@ type BatchResult struct {
 	Reached       []string `json:"reached"`
 	Obs           []string `json:"obs"`
 	KnownHit      []string `json:"known_hit"`
+	Notes         []string `json:"notes,omitempty"`
 	AssumeFailed  bool     `json:"assume_failed"`
 	Panic         string   `json:"panic,omitempty"`
 	UnknownHarnes bool     `json:"unknown_harness,omitempty"`
@@ -47,7 +48,7 @@ func runOne(h func(), c BatchCase) (res BatchResult) {
 				res.Panic = fmt.Sprintf("%v\n%s", p, debug.Stack())
 			}
 		}
-		res.Failures, res.Reached, res.Obs, res.KnownHit = r.Failures, r.Reached, r.Obs, r.KnownHit
+		res.Failures, res.Reached, res.Obs, res.KnownHit, res.Notes = r.Failures, r.Reached, r.Obs, r.KnownHit, r.Notes
 	}()
 	h()
 	return
